@@ -432,6 +432,11 @@ package commitlog
 //@   ensures forall x *segment :: x.lastOffset == old(x.lastOffset) && x.BaseOffset == old(x.BaseOffset) && x.position == old(x.position) && x.firstOffset == old(x.firstOffset)
 //@ func newSegmentScanner serves C08
 //@   ensures result != nil && result.s == segment
+// rewriteTarget: the (empty) segment a clean or truncation rewrites this one into
+//@ func (*segment).rewriteTarget serves C08, C01, C05
+//@   returns (c, err)
+//@   requires s != nil
+//@   ensures err == nil ==> c != nil && c.BaseOffset == old(s.BaseOffset)
 //@ func (*segment).Cleaned serves C08
 //@   returns (c, err)
 //@   requires s != nil
